@@ -16,7 +16,7 @@ def sl(n): return ','.join('St<%d>' % i for i in range(n))
 def mjob(name, prop, N=3, L=4, K=2, unwind=None, timeout=300, **defs):
     d = dict(NSTATES=N, STATE_LIST=sl(N), LIMIT=L, KSTEPS=K, PROP=prop)
     d.update(defs)
-    return Job(name, 'machine.cpp', d, unwind=unwind or 40, unwindset={'nondet_fill.0': 200}, timeout=timeout, prop=(prop * 100, prop * 100 + 99))
+    return Job(name, 'machine.cpp', d, unwind=unwind or max(8, L + 4, N + 2), unwindset={'nondet_fill.0': 200}, timeout=timeout, prop=(prop * 100, prop * 100 + 99))
 
 HIST = dict(FFSM2_ENABLE_TRANSITION_HISTORY='')
 SER = dict(FFSM2_ENABLE_SERIALIZATION='')
@@ -64,8 +64,8 @@ def c04_jobs(tier):
     Ls = (1, 2, 4) if tier == 'quick' else (1, 2, 3, 4, 5, 6, 7, 8)
     for l in Ls:
         k = 2 if l <= 4 else 1
-        J.append(mjob('m-n3-l%d' % l, 4, N=3, L=l, K=k, OPS=CORE, unwind=max(40, l + 3), timeout=T))
-        J.append(mjob('m-n2-l%d-pingpong' % l, 4, N=2, L=l, K=k, OPS=CORE, PINGPONG=1, unwind=max(40, l + 3), timeout=T))
+        J.append(mjob('m-n3-l%d' % l, 4, N=3, L=l, K=k, OPS=CORE, timeout=T))
+        J.append(mjob('m-n2-l%d-pingpong' % l, 4, N=2, L=l, K=k, OPS=CORE, PINGPONG=1, timeout=T))
     J.append(mjob('m-n3-l2-manual-head', 4, N=3, L=2, K=2, MANUAL=1, HEAD=1, OPS=CORE | 128, timeout=T))
     J.append(mjob('m-n3-l4-pingpong-head', 4, N=3, L=4, K=2, HEAD=1, OPS=CORE, PINGPONG=1, timeout=T))
     J.append(mjob('m-n3-l2-ind', 4, N=3, L=2, K=1, INDUCTIVE=1, OPS=ALLOPS, timeout=T))
@@ -87,6 +87,8 @@ def c05_jobs(tier):
         J.append(mjob('m-n1-evt1', 5, N=1, K=2, EVT=1, OPS=PH, timeout=T))
         J.append(mjob('m-n4-ind-head', 5, N=4, K=1, INDUCTIVE=1, HEAD=1, OPS=PH | 16, timeout=T))
         J.append(mjob('m-n3-manual', 5, N=3, K=2, MANUAL=1, OPS=PH | 128, timeout=T))
+        J.append(mjob('m-n3-l2-head-plans-k1', 5, N=3, L=2, K=1, HEAD=1, OPS=3, timeout=T, FFSM2_ENABLE_PLANS=''))
+        J.append(mjob('m-n2-l2-plans-evt1-k1', 5, N=2, L=2, K=1, EVT=1, OPS=3, timeout=T, FFSM2_ENABLE_PLANS=''))
     else:
         for evt in (0, 1, 2):
             for head in (0, 1):
@@ -95,6 +97,9 @@ def c05_jobs(tier):
             J.append(mjob('m-n%d-k3' % n, 5, N=n, K=3, OPS=PH, timeout=T))
             J.append(mjob('m-n%d-ind-head' % n, 5, N=n, K=1, INDUCTIVE=1, HEAD=1, OPS=PH | 16, timeout=T))
         J.append(mjob('m-n3-manual-head-payload', 5, N=3, K=3, MANUAL=1, HEAD=1, PAYLOAD=3, OPS=PH | 16 | 128, timeout=T))
+        for n in (1, 2, 3, 4):
+            J.append(mjob('m-n%d-l2-head-plans-k2' % n, 5, N=n, L=2, K=2, HEAD=1, OPS=PH, timeout=T, FFSM2_ENABLE_PLANS=''))
+            J.append(mjob('m-n%d-l2-plans-k2' % n, 5, N=n, L=2, K=2, HEAD=0, EVT=n % 3, OPS=PH, timeout=T, FFSM2_ENABLE_PLANS=''))
     return J
 
 def c06_jobs(tier):
